@@ -129,7 +129,7 @@ def latmio_dir_connected(R, itr, D=None, seed=None):
                         break
             att += 1
 
-    Rlatt = R[np.ix_(ind_rp[::-1], ind_rp[::-1])]  # reverse random permutation
+    Rlatt = R[np.ix_(np.argsort(ind_rp), np.argsort(ind_rp))]  # reverse random permutation
 
     return Rlatt, R, ind_rp, eff
 
@@ -227,7 +227,7 @@ def latmio_dir(R, itr, D=None, seed=None):
                     break
             att += 1
 
-    Rlatt = R[np.ix_(ind_rp[::-1], ind_rp[::-1])]  # reverse random permutation
+    Rlatt = R[np.ix_(np.argsort(ind_rp), np.argsort(ind_rp))]  # reverse random permutation
 
     return Rlatt, R, ind_rp, eff
 
@@ -367,7 +367,7 @@ def latmio_und_connected(R, itr, D=None, seed=None):
                         break
             att += 1
 
-    Rlatt = R[np.ix_(ind_rp[::-1], ind_rp[::-1])]
+    Rlatt = R[np.ix_(np.argsort(ind_rp), np.argsort(ind_rp))]
     return Rlatt, R, ind_rp, eff
 
 
@@ -475,7 +475,7 @@ def latmio_und(R, itr, D=None, seed=None):
                     break
             att += 1
 
-    Rlatt = R[np.ix_(ind_rp[::-1], ind_rp[::-1])]
+    Rlatt = R[np.ix_(np.argsort(ind_rp), np.argsort(ind_rp))]
     return Rlatt, R, ind_rp, eff
 
 
